@@ -250,7 +250,7 @@ MANIFEST_TEXT = {
         "technique": "Lean 4 proof over regenerated tables (decide) and the alert pre-pass model + differential correspondence",
     },
     "C15": {
-        "text": "Theorems over the BuildJournal model for all histories and windows: output strictly increasing in UID (keys of the state are distinct and every entry's UID is its key, by induction over feeds; mergeSort sortedness), selection = assigned and start in [lo,hi], Trip.update/markPast refine the abstract account (count, last observed, marked-past set once, unassigned updates ignored after assignment, assignment monotone) and the refinement is lifted to whole histories (the entry of a UID after any feed sequence carries the account computed feed by feed; the mark is the time of the first feed lacking the trip), UID injective for non-digit-leading suffixes; the counterexample to full UID injectivity is proved and kept as known finding D17. Tied to journal.go by comparing every prefix x window of generated histories; an independent accounting oracle checks the implementation.",
+        "text": "Theorems over the BuildJournal model for all histories and windows: output strictly increasing in UID (keys of the state are distinct and every entry's UID is its key, by induction over feeds; mergeSort sortedness), selection = assigned and start in [lo,hi], Trip.update/markPast refine the abstract account (count, last observed, marked-past set once, unassigned updates ignored after assignment, assignment monotone) and the refinement is lifted to whole histories (the entry of a UID after any feed sequence carries the account computed feed by feed; the mark is the time of the first feed lacking the trip), UID injective for non-digit-leading suffixes; the counterexample to full UID injectivity is proved and kept as known finding D17; the UID of the model is proved to be the Sprintf format and prefix length read from buildTripUID on every run (C15_uid_is_source_format). Tied to journal.go by comparing every prefix x window of generated histories; an independent accounting oracle checks the implementation.",
         "note": "Trusted: Lean kernel, correspondence harness. Known finding D17 (UID collision when the suffix starts with a digit) is listed in KNOWN_FINDINGS.jsonl and reproduced by a dedicated probe on every run.",
         "technique": "Lean 4 proof (state invariants by induction over feeds, refinement to an abstract account) + differential correspondence with journal.BuildJournal",
     },
